@@ -14,7 +14,7 @@
 (*    column the linear longitude scale prescribes (+-1);                  *)
 (*  - view actions leave the data unchanged.                               *)
 (***************************************************************************)
-EXTENDS Integers, Sequences, FiniteSets, Json, IOUtils, TLC
+EXTENDS Integers, Sequences, FiniteSets, Json, IOUtils, TLC, Trig
 
 Rec == ndJsonDeserialize(IOEnv.TRACE)
 VARIABLES l, total, most, lastplanes, dirty
@@ -50,6 +50,11 @@ TableDiff(ev) ==
 CanvasX(dlon, scale9) == LET s == IF dlon < 0 THEN -1 ELSE 1
                          IN s * (((((AbsS(dlon) \div 1000) * (scale9 \div 1000)) \div 1000) * 1389) \div 1000000)
 LabelCol(x, cw) == ((x + 400) * (cw - 1)) \div 800 + 2
+\* canvas y of a latitude difference: Mercator, linearised at the middle latitude (dy = dlat / cos(lat)); good to a
+\* fraction of a row for differences of a degree or two
+CanvasY(dlat, midlat, scale9) == LET c14 == Cos4(midlat \div 100) \div 16384            \* cos in units of 2^-14
+                                 IN IF c14 <= 0 THEN 0 ELSE (CanvasX(dlat, scale9) * 16384) \div c14
+LabelRow(y, ch) == ((400 - (y + 20)) * (ch - 1)) \div 800 + 5
 MapDiff(ev) ==
   LET clat == IF ev.clat = <<>> THEN ev.lat ELSE ev.clat[1]
       clon == IF ev.clong = <<>> THEN ev.long ELSE ev.clong[1]
@@ -61,8 +66,10 @@ MapDiff(ev) ==
                     dlat == p.lat - clat
                     \* one row of the canvas and the label's fixed offset of 20 units, in micro-degrees of latitude (linear approximation, generous)
                     marg == (((20 + 800 \div ch + 15) * 1000) \div (((ev.scale9 \div 1000) * 1389) \div 1000)) * 1000 + 100000
+                    y == CanvasY(dlat, (p.lat + clat) \div 2, ev.scale9)
                 IN IF ~Has(p.k) \/ p.det = 0 \/ AbsS(x) > 330 THEN {}
                    ELSE (IF AbsS(Lab(p.k).col - LabelCol(x, cw)) <= 1 THEN {} ELSE {"map_column"})
+                        \cup (IF AbsS(y) > 330 \/ AbsS(clat) > 70000000 \/ AbsS(Lab(p.k).row - LabelRow(y, ch)) <= 2 THEN {} ELSE {"map_row"})
                         \cup (IF dlat > 20000 /\ Lab(p.k).row > yc THEN {"map_north_above"} ELSE {})
                         \cup (IF dlat < -marg /\ Lab(p.k).row < yc THEN {"map_south_below"} ELSE {})
   IN IF cw < 20 \/ ch < 5 THEN {} ELSE UNION {One(ev.planes[i]) : i \in 1..Len(ev.planes)}
